@@ -107,6 +107,31 @@ def _to_list(E):
         for _ in range(200 if tier != "thorough" else 2000):
             n = rng.randrange(1, 13)
             yield {"n": n, "unions": [[rng.randrange(n), rng.randrange(n)] for _ in range(rng.randrange(0, 12))]}
+        # tournament histories that unite current ROOTS only (no path compression on the way), in both argument orders: the only way to
+        # reach parent chains of depth >= 3 before to_list is called
+        for _ in range(150 if tier != "thorough" else 1500):
+            n = rng.choice([8, 9, 9, 12, 16, 17])
+            roots = list(range(n))
+            rng.shuffle(roots)
+            rank = {r: 0 for r in roots}
+            unions = []
+            stop_at = rng.choice([1, 1, 2, 3])
+            while len(roots) > stop_at and len(roots) > 1:
+                nxt = []
+                for a, b in zip(roots[0::2], roots[1::2]):
+                    if rng.random() < 0.5:
+                        a, b = b, a
+                    unions.append([a, b])
+                    if rank[a] == rank[b]:
+                        rank[a] += 1
+                        nxt.append(a)
+                    else:
+                        nxt.append(a if rank[a] > rank[b] else b)
+                if len(roots) % 2:
+                    nxt.append(roots[-1])
+                rng.shuffle(nxt)
+                roots = nxt
+            yield {"n": n, "unions": unions}
 
     def build(recipe, src_root):
         mod = native.import_real(M, src_root)
@@ -125,7 +150,7 @@ def _to_list(E):
         return (lambda self: self.to_list()), {"self": ds}, u
 
     E.registry.scopes[f"{M}:DisjointSet.to_list"] = Scope(
-        gen, build, describe="all union histories of length <= 2 (3 thorough) on <= 4 (5) elements, 200 (2000) random histories on <= 12 elements")
+        gen, build, describe="all union histories of length <= 2 (3 thorough) on <= 4 (5) elements, 200 (2000) random histories on <= 12 elements, 150 (1500) root-only tournament histories on 8-17 elements (parent chains of depth >= 3, both argument orders)")
 
 
 _setup_contracts0 = setup
